@@ -13,10 +13,18 @@ from enum import Enum
 
 import pandas as pd
 from particle import SpinType
-from particle.particle.utilities import programmatic_name
+from particle.particle.utilities import programmatic_name as _programmatic_name
 
 from ..utils import LineFailure
 from .amplitudechain import LS, AmplitudeChain
+
+
+def programmatic_name(name: str) -> str:
+    # Parameter names are never nuclei; older versions of particle take a single argument
+    try:
+        return _programmatic_name(name, False)
+    except TypeError:
+        return _programmatic_name(name)  # type: ignore[call-arg]
 
 
 class SF_4Body(Enum):
